@@ -449,6 +449,16 @@ theorem takePending_findPair (a : Agent) (now tid : Nat) (l r : Cand) :
   simp only []
   split <;> rfl
 
+theorem hsFin_nn {ex : Option Nat} (a : Agent) (p : Pair) (pd : Pending) (x : Agent) : NoNew ex x (hsFin a p pd x) := by
+  unfold hsFin
+  split
+  · split
+    · exact NoNew.of_eq rfl rfl
+    · exact NoNew.refl _ _
+  · split
+    · exact NoNew.modPair_keep x p.id hsClear (fun _ => rfl) (fun _ => rfl) (fun _ h => h)
+    · exact NoNew.refl _ _
+
 theorem hsSel_nn {ex : Option Nat} (a : Agent) (p : Pair) (pd : Pending) : NoNew ex a (hsSel a p pd).1 := by
   rcases hsSel_cases a p pd with h | ⟨h, _⟩
   · rw [h]; exact NoNew.refl _ _
@@ -480,7 +490,7 @@ theorem handleSuccess_own (a : Agent) (now : Nat) (m : Msg) (l r : Cand) (src : 
         obtain ⟨⟨hn, hd⟩, hs⟩ := hcond
         refine Or.inr ⟨pd, p, rfl, hn, hd, hs, hfp ▸ hfind, ?_⟩
         refine NoNew.trans (NoNew.trans (NoNew.trans h0.weaken
-          (NoNew.modPair_ex a1 p.id (hsMark pd) (fun _ => rfl))) (hsSel_nn _ p pd)) ?_
+          (NoNew.modPair_ex a1 p.id (hsMark pd) (fun _ => rfl))) ((hsSel_nn _ p pd).trans (hsFin_nn (a1.modPair p.id (hsMark pd)) p pd _))) ?_
         exact NoNew.modPair_keep _ p.id (fun p => { p with respRecv := p.respRecv + 1 }) (fun _ => rfl)
           (fun _ => rfl) (fun _ h => h)
 
